@@ -11,7 +11,7 @@ SPECS = [
     dict(name="c06_seq_add_get_4", batch="seq", tiers=Q, bound="n <= 4 symbolic u16 adds, unwind 6", what="get(add(x))==x, dense distinct refs, len"),
     dict(name="c06_seq_drop_once", batch="seq", tiers=Q, bound="n <= 3 adds, unwind 27", what="drop of arena drops each element exactly once"),
     dict(name="c06_seq_bucket_boundary", batch="seq", tiers=Q, bound="126 concrete + 4 symbolic adds, unwind 132", what="adds across the first bucket boundary read back", timeout=900),
-    dict(name="c06_seq_drop_two_buckets", batch="seq2", tiers=T, bound="127..130 adds, unwind 132", what="drop across two buckets drops each element once", timeout=1800),
+    dict(name="c06_seq_drop_two_buckets", batch="seq2", tiers=Q, bound="127..130 adds, unwind 132", what="drop across two buckets drops each element once", timeout=1800),
     dict(name="c06_sched_two_adders_empty", batch="sched", tiers=Q, bound="2 threads, B = one complete add_get placed at any of A's scheduling points (symbolic), empty arena, symbolic elements", what="distinct refs, each reads back its own element, len==2; includes both adds racing to allocate the first bucket", timeout=900),
     dict(name="c06_sched_reader_during_add", batch="sched", tiers=Q, bound="reader thread placed at any scheduling point of a concurrent add", what="earlier add reads back during a concurrent add; len monotone", timeout=900),
     dict(name="c06_sched_two_adders_boundary", batch="schedT1", tiers=T, bound="2 threads, 127 elements present (bucket boundary)", what="adds straddling the bucket boundary under every nested schedule", timeout=1800),
